@@ -464,6 +464,8 @@ func runC10(w *World, r *Report) {
 		}
 	}
 
+	shareRule(w, r, "C10.unit-context-not-shared", "no escaping function literal (the per-task goroutines of the retriever flows, the tool-call goroutines) writes a context or other variable captured from its creator: each unit's run info travels in its own context", 5, "C09", "C09.capture-write")
+
 	r.Rule("C10.init-detaches", "InitCallbacks installs a manager (or nil) into the context on every path: it never returns the incoming context unchanged", 1)
 	{
 		ic := w.Fn("internal/callbacks", "InitCallbacks")
